@@ -19,7 +19,7 @@ fn c04_o4_can_evict_only_fully_tracked() {
     assert!(can == (shape == OriginShape::Derived), "C04/C05: evictability differs from 'computed from fully tracked dependencies'");
     kani::cover!(shape == OriginShape::Untracked);
     kani::cover!(shape == OriginShape::Assigned);
-    kani::cover!(can);
+    kani::cover!(shape == OriginShape::Derived);
     std::mem::forget(header);
 }
 
